@@ -219,8 +219,13 @@ def run(ctx):
     ck.info("op_add / op_subtract fast closures: " + ("identical up to add<->sub" if same else "differ (expected: different first-argument handling); see R05b order rule"))
     for g in (ca, cs_):
         limbs = [b for b, t in g.calls() if (t.get("callee") or "").endswith("::limbs")]
+        # the accumulator is whatever .limbs() is measured on (by local, not by name); its updates are the checked add/sub on it
+        measured = set()
+        for b, t in g.calls():
+            if (t.get("callee") or "").endswith("::limbs"):
+                measured |= {x[2] for x in walk(g.expr_op(t["args"][0], deep=False)) if x[0] in ("var", "named")}
         upd = [b for b, t in g.calls() if (t.get("callee") or "").split("::")[-1] in ("checked_add", "checked_sub")
-               and any("total" in show(g.expr_op(a, deep=False)) for a in t["args"])]
+               and any(x[0] in ("var", "named") and x[2] in measured for a in t["args"] for x in walk(g.expr_op(a, deep=False)))]
         from rules.c07 import forward_reach
         # within one iteration no measurement may come after the update
         ok = bool(limbs) and bool(upd) and not any(lb in forward_reach(g, ub) for ub in upd for lb in limbs) and \
